@@ -27,6 +27,10 @@ PROPS = {
              {"checks": 8000, "timeout": 300},
              {"checks": 30000, "shards": 16, "timeout": 1800},
              assumptions=COMMON_ASSUME),
+    "C05": P("TestC05", "exploration",
+             {"checks": 8000, "timeout": 300},
+             {"checks": 30000, "shards": 16, "timeout": 1800},
+             assumptions=COMMON_ASSUME),
 }
 
 TRUST = "Trusted base: Go runtime, net/http, compress/*, google.golang.org/protobuf, rapid, and the harness's own reference wire layer as the reading of the protocol specs. Generated search: absence of violations is evidence over the explored cases only."
@@ -50,6 +54,11 @@ META = {
     "C04": {
         "technique": 'property-based testing (rapid): generated error specs and bare HTTP failures relayed through the real Transcoder; independent code tables and per-protocol error parsers as oracle',
         "level_text": 'Generated exploration of codes (in and out of range), UTF-8 messages, typed details, positions and bare HTTP statuses across all client forms and target configurations; the client-side parse must equal the backend script and the independently written HTTP<->RPC tables.',
+        "level_note": TRUST,
+    },
+    "C05": {
+        "technique": 'property-based testing (rapid): generated header/trailer sets relayed through the real Transcoder; per-name ordered multi-value equality and status-key leak check as oracle',
+        "level_text": 'Generated exploration of metadata sets (random-case names, multi-values, -bin values, names on both sides, both trailer styles) over success, error and trailers-only outcomes and all client forms / target configurations.',
         "level_note": TRUST,
     },
 }
